@@ -103,6 +103,62 @@ func (P) Generate(g *core.Gen) {
 		emit(g, "prim:tok", len(s) > 0, "C06 tok "+hexTok(s))
 	}
 	_ = hex.EncodeToString
+	// script classifiers
+	ckeys := makeKeys(r.Fork(), 3)
+	for i := 0; i < g.N(600, 6000); i++ {
+		var sc []byte
+		switch r.Intn(6) {
+		case 0:
+			sc = soupScript(r, ckeys, r.Bool(), 4)
+		case 1: // witness-program shaped
+			ver := byte(r.Pick(0, 0x4f, 0x50, 0x51, 0x52, 0x60, 0x61))
+			n := int(r.Pick(0, 1, 2, 3, 20, 32, 39, 40, 41, 42))
+			sc = cat([]byte{ver, byte(n)}, r.Bytes(n))
+			if r.Chance(1, 6) {
+				sc = cat([]byte{ver}, pushWith(0x4c, r.Bytes(n)))
+			}
+			if r.Chance(1, 8) {
+				sc = append(sc, byte(r.Intn(256)))
+			}
+			if r.Chance(1, 6) {
+				sc = []byte{0x51, 0x02, 0x4e, byte(r.Pick(0x73, 0x74))}
+			}
+		case 2: // P2SH shaped
+			sc = cat([]byte{0xa9, byte(r.Pick(0x14, 0x14, 0x13, 0x15))}, r.Bytes(20), []byte{byte(r.Pick(0x87, 0x87, 0x88))})
+		case 3: // push-only with every push encoding, sometimes truncated
+			for k := r.Intn(5); k >= 0; k-- {
+				d := r.Bytes(int(r.Pick(0, 1, 75, 76, 255, 256, 300)))
+				switch r.Intn(4) {
+				case 0:
+					sc = append(sc, pushMin(d)...)
+				case 1:
+					sc = append(sc, pushWith(byte(r.Pick(0x4c, 0x4d, 0x4e)), d)...)
+				case 2:
+					sc = append(sc, byte(r.Pick(0x4f, 0x50, 0x51, 0x60, 0x61)))
+				default:
+					sc = append(sc, pushBytes(d)...)
+				}
+			}
+			if r.Chance(1, 5) && len(sc) > 0 {
+				sc = sc[:len(sc)-1]
+			}
+		case 4: // OP_SUCCESS candidates: as opcode, inside push data, after a truncated push
+			op := byte(r.Pick(0x50, 0x62, 0x7e, 0x89, 0x8d, 0x95, 0xbb, 0xfe, 0xff, 0xba, 0x4f))
+			switch r.Intn(4) {
+			case 0:
+				sc = cat(pushBytes([]byte{op, op}), []byte{0x51})
+			case 1:
+				sc = cat([]byte{0x51}, []byte{op})
+			case 2:
+				sc = cat([]byte{0x4c, 0x05, op}, []byte{op})
+			default:
+				sc = cat([]byte{op, 0x4d, 0xff})
+			}
+		default:
+			sc = r.Bytes(r.Intn(45))
+		}
+		g.Case("prim:classify", len(sc) > 0, "C06 classify "+hexTok(sc))
+	}
 
 	// Bitcoin Core's own vectors
 	var cs []caseSpec
